@@ -31,6 +31,14 @@ theorem facts_current :
     Firefly.Gen.C06.pageLevels = Firefly.Gen.C04.pageLevels ∧
     Firefly.Gen.C06.invalidFrame = Firefly.Gen.C04.invalidFrame := by decide
 
+/-- the flag constants the fault handler and the guard test are the architectural / documented bits,
+stated against literals (Present 0, RW 1, User 2, CopyOnWrite 9, NoExecute 63, frame field 12–51) -/
+theorem flags_architectural :
+    Firefly.Gen.C06.flagPresent = 2 ^ 0 ∧ Firefly.Gen.C06.flagRW = 2 ^ 1 ∧
+    Firefly.Gen.C06.flagUserAccessible = 2 ^ 2 ∧ Firefly.Gen.C06.flagHugePage = 2 ^ 7 ∧
+    Firefly.Gen.C06.flagGlobal = 2 ^ 8 ∧ Firefly.Gen.C06.flagCopyOnWrite = 2 ^ 9 ∧
+    Firefly.Gen.C06.flagNoExecute = 2 ^ 63 ∧ Firefly.Gen.C06.ptePhysPageMask = 0x000ffffffffff000 := by decide
+
 /-- **The guard, at every mapping entry point.** Once `protectReservedZeroedPage` is set, `Map` of
 the zero frame with the RW flag, `MapTemporary` of the zero frame, and the page loop of `MapRegion` /
 `IdentityMapRegion` starting at the zero frame with RW all return the error and change nothing —
